@@ -132,8 +132,11 @@ def execute(case, stats, log):
         except Violation:
             raise
         except UnexecutableGraph as e:
-            # precondition of the property (closed, acyclic graph) fails: no order yields results
-            raise Violation(ID, "unexecutable-graph", str(e))
+            # precondition of the property (closed, acyclic graph) fails: no order yields results, so the
+            # statement ("every order yields the same results") holds vacuously -- a C04 matter, counted,
+            # not reported here
+            stats["unclaimed.unexecutable_graph"] = stats.get("unclaimed.unexecutable_graph", 0) + 1
+            raise Invalid(f"graph is not executable under any order (C04's matter): {e}")
         except G.fakes.InjectedIOError:
             raise
         except Exception as e:  # noqa: BLE001
